@@ -1244,7 +1244,7 @@ impl ArrayData {
 
                 if values_data.len < expected_values_len {
                     return Err(ArrowError::InvalidArgumentError(format!(
-                        "Values length {} is less than the length plus offset ({}) multiplied by the value size ({}) for {}",
+                        "Values length {} is less than the length ({}) multiplied by the value size ({}) for {}",
                         values_data.len, len_plus_offset, list_size, self.data_type
                     )));
                 }
